@@ -71,10 +71,42 @@ def main():
                 v = "leaf"
                 for _ in range(op["depth"]):
                     v = {"k": v} if op["kind"] == "obj" else [v]
-                if op["where"] == "metadata":
+                w = op["where"]
+                base = {"Type": "Custom::Deep", "Properties": {"P": "x"}}
+                if w == "metadata":
                     t = {"Metadata": {"M": v}, "Resources": {}}
-                else:
+                elif w == "properties":
                     t = {"Resources": {"R": {"Type": "Custom::Deep", "Properties": {"P": v}}}}
+                elif w == "type":
+                    t = {"Resources": {"R": dict(base, Type=v)}}
+                elif w == "resource-condition":
+                    t = {"Resources": {"R": dict(base, Condition=v)}}
+                elif w == "resource-member":
+                    t = {"Resources": {"R": dict(base, DependsOn=v)}}
+                elif w == "resource":
+                    t = {"Resources": {"R": v}}
+                elif w == "modelled-property":
+                    t = {"Resources": {"R": {"Type": "AWS::S3::Bucket", "Properties": {"BucketName": v}}}}
+                elif w == "policy-action":
+                    t = {"Resources": {"R": {"Type": "AWS::IAM::ManagedPolicy", "Properties": {"PolicyDocument": {"Statement": [{"Effect": "Allow", "Action": v, "Resource": "*"}]}}}}}
+                elif w == "condition-value":
+                    t = {"Resources": {"R": {"Type": "AWS::IAM::ManagedPolicy", "Properties": {"PolicyDocument": {"Statement": [{"Effect": "Allow", "Action": "s3:*", "Resource": "*", "Condition": {"StringEquals": {"k": v}}}]}}}}}
+                elif w == "parameter-default":
+                    t = {"Parameters": {"P": {"Type": "String", "Default": v}}, "Resources": {}}
+                elif w == "parameter-type":
+                    t = {"Parameters": {"P": {"Type": v}}, "Resources": {}}
+                elif w == "conditions":
+                    t = {"Conditions": {"C": v}, "Resources": {}}
+                elif w == "mappings":
+                    t = {"Mappings": {"M": {"a": {"b": v}}}, "Resources": {}}
+                elif w == "outputs":
+                    t = {"Outputs": {"O": {"Value": v}}, "Resources": {}}
+                elif w == "description":
+                    t = {"Description": v, "Resources": {}}
+                elif w == "function-body":
+                    t = {"Resources": {"R": {"Type": "Custom::Deep", "Properties": {"P": {"Fn::Join": ["", v]}}}}}
+                else:
+                    t = {"Resources": v}
                 pycfmodel.parse(t)
                 res = {"outcome": "ok"}
             elif op["op"] == "pipeline":
